@@ -318,3 +318,128 @@ def exact_solutions(T, spec):
     b = full_cols(T["rhs"], spec).reshape(B, n, c)
     x = torch.linalg.solve(Aq.reshape(Q, B, n, n), b.unsqueeze(0).expand(Q, B, n, c))
     return x.permute(0, 1, 3, 2).reshape(Q, B * c, n)
+
+
+# ------------------------------------------------------------------------------------------ contour integral quadrature
+
+def build_spd(fam, n, kappa, scale, g):
+    lam = spectrum(fam, n, kappa, g) * float(scale)
+    if fam == "identity":
+        return torch.diag(lam), lam
+    q = rand_orth(n, g)
+    a = (q * lam.unsqueeze(0)) @ q.T
+    return (a + a.T) / 2, lam
+
+
+def build_op(spec):
+    """spec -> (LinearOperator built through the public constructors, dense K (*batch, n, n) float64 assembled from the
+    constructor arguments, rhs (*batch, n, t), lhs (*batch, o, n) or None).  spec keys: op, n, batch, t, fam, kappa,
+    scale, lhs (o or None), vseed"""
+    import linear_operator.operators as O
+    g = torch.Generator().manual_seed(int(spec["vseed"]))
+    n, t = spec["n"], spec["t"]
+    batch = tuple(spec["batch"])
+    B = prod(batch)
+    kind = spec["op"]
+    fam, kappa, scale = spec["fam"], spec["kappa"], spec.get("scale", 1.0)
+
+    if kind in ("dense", "constmul", "sum", "root", "added_diag"):
+        Ks = [build_spd(fam, n, kappa, scale, g)[0] for _ in range(B)]
+        K = torch.stack(Ks).reshape(*batch, n, n)
+        if kind == "dense":
+            op = O.DenseLinearOperator(K)
+        elif kind == "constmul":
+            op = O.DenseLinearOperator(K / 2.0) * 2.0
+        elif kind == "sum":
+            D = torch.diag_embed(0.25 * torch.diagonal(K, dim1=-2, dim2=-1))
+            op = O.DenseLinearOperator(K / 4.0 + D) + O.DenseLinearOperator(3.0 * K / 4.0 - D)
+        elif kind == "root":
+            w, v = torch.linalg.eigh(K)
+            R = v * w.clamp_min(0).sqrt().unsqueeze(-2)
+            op = O.RootLinearOperator(R)
+            K = R @ R.mT
+        else:
+            d = 0.5 * torch.diagonal(K, dim1=-2, dim2=-1)
+            op = O.AddedDiagLinearOperator(O.DenseLinearOperator(K - torch.diag_embed(d)), O.DiagLinearOperator(d))
+    elif kind == "diag":
+        lam = torch.stack([spectrum(fam, n, kappa, g) * scale for _ in range(B)]).reshape(*batch, n)
+        op = O.DiagLinearOperator(lam)
+        K = torch.diag_embed(lam)
+    elif kind == "identity":
+        op = O.IdentityLinearOperator(n, batch_shape=torch.Size(batch), dtype=F64)
+        K = torch.eye(n, dtype=F64).expand(*batch, n, n).clone()
+    elif kind == "kron":
+        a, b = spec["factors"]
+        assert a * b == n
+        Ka = torch.stack([build_spd(fam, a, math.sqrt(kappa), scale, g)[0] for _ in range(B)]).reshape(*batch, a, a)
+        Kb = torch.stack([build_spd("uniform", b, math.sqrt(kappa), 1.0, g)[0] for _ in range(B)]).reshape(*batch, b, b)
+        op = O.KroneckerProductLinearOperator(O.DenseLinearOperator(Ka), O.DenseLinearOperator(Kb))
+        K = (Ka[..., :, None, :, None] * Kb[..., None, :, None, :]).reshape(*batch, n, n)
+    else:
+        raise ValueError(kind)
+    rb = batch if spec.get("rhs_batch", "full") == "full" else ()
+    rhs = torch.randn(*rb, n, t, generator=g, dtype=F64)
+    lhs = None
+    if spec.get("lhs"):
+        lhs = torch.randn(*rb, int(spec["lhs"]), n, generator=g, dtype=F64)
+    return op, K, rhs, lhs
+
+
+def ciq_module():
+    import sys
+    import linear_operator.utils.contour_integral_quad  # noqa
+    return sys.modules["linear_operator.utils.contour_integral_quad"]
+
+
+class CiqRecorder:
+    """wraps linear_operator.utils.contour_integral_quad (the name SqrtInvMatmul.forward and the sampling code look up)
+    and records what it returned — in the harness process only, nothing of the repository is changed"""
+
+    def __init__(self):
+        self.calls = []
+
+    def __enter__(self):
+        import linear_operator.utils as U
+        import linear_operator.operators._linear_operator as LO
+        self.U = U
+        self.mod = ciq_module()
+        self.orig = self.mod.contour_integral_quad
+        rec = self
+
+        def wrapper(*a, **k):
+            out = rec.orig(*a, **k)
+            rec.calls.append({"rhs": a[1].detach().clone(), "inverse": k.get("inverse", False),
+                              "solves": out[0].detach().clone(), "weights": out[1].detach().clone(),
+                              "no_shift": out[2].detach().clone(), "shifts": out[3].detach().clone()})
+            return out
+        self.saved_U = U.contour_integral_quad
+        U.contour_integral_quad = wrapper
+        self.mod.contour_integral_quad = wrapper
+        return self
+
+    def __exit__(self, *exc):
+        self.U.contour_integral_quad = self.saved_U
+        self.mod.contour_integral_quad = self.orig
+        return False
+
+
+class RandnPatch:
+    """replaces torch.randn by a function returning prescribed base samples (harness process only)"""
+
+    def __init__(self, base):
+        self.base = base
+
+    def __enter__(self):
+        self.orig = torch.randn
+        base = self.base
+
+        def fake(*shape, **kw):
+            shp = tuple(shape[0]) if len(shape) == 1 and isinstance(shape[0], (tuple, list, torch.Size)) else tuple(shape)
+            assert tuple(base.shape) == shp, (base.shape, shp)
+            return base.clone().to(kw.get("dtype", base.dtype))
+        torch.randn = fake
+        return self
+
+    def __exit__(self, *exc):
+        torch.randn = self.orig
+        return False
